@@ -82,6 +82,20 @@ def run(seed):
         step('inv%d' % n, lambda: linalg.matrix_inverse(A))
         step('det%d' % n, lambda: linalg.matrix_determinant(A))
         step('ident%d' % n, lambda: linalg.matrix_identity(n))
+    # matrices that need row exchanges, sizes alternating (a cache of one entry forgets size 3 while size 4 is worked on, a larger one
+    # does not: whatever is memoised per size must not carry anything over from the previous matrix of that size)
+    for j, n in enumerate((3, 4, 3, 5, 4, 3, 5, 4)):
+        A = [[float(rng.randint(-2, 2)) for _ in range(n)] for _ in range(n)]
+        perm = list(range(n))
+        rng.shuffle(perm)
+        if perm == sorted(perm):
+            perm = perm[1:] + perm[:1]
+        for i in range(n):
+            A[i][perm[i]] = float(rng.choice([-9, 9, 8, -8]))
+        b = [[float(rng.randint(-9, 9))] for _ in range(n)]
+        step('swap-inv%d.%d' % (n, j), lambda: linalg.matrix_inverse(A))
+        step('swap-factor%d.%d' % (n, j), lambda: linalg.lu_factor(A, b))
+        step('swap-pivot%d.%d' % (n, j), lambda: linalg.matrix_pivot(A, sign=True))
     for kk in range(12):
         step('binom%d' % kk, lambda: [linalg.binomial_coefficient(kk, i) for i in range(kk + 2)])
     P = [[rng.uniform(-5, 5) for _ in range(3)] for _ in range(5)]
